@@ -119,8 +119,8 @@ pub fn dump_container(path: &std::path::Path, indexes: &[&str], with_check: bool
             }
         }
         out.push(format!("layout {name} common={} variants={}", common.join(","), variants.iter().map(|v| v.join(",")).collect::<Vec<_>>().join("|")));
-        // the dump shows the first 20000 entries of an index (a damaged count may be huge)
-        for j in 0..index.count().into_u32().min(20000) {
+        // the dump shows the first 200000 entries of an index (a damaged count may be huge)
+        for j in 0..index.count().into_u32().min(200000) {
             let line = guard(|| {
                 let entry = cls(index.get_entry(&builder, jbk::EntryIdx::from(j)))?;
                 let entry = match entry {
